@@ -58,6 +58,9 @@ func witnesses() []witness {
 		{"{a:1(t=uint8),b:<t=int8>,c:2(t)}", p + "type-value-rebinds-name", one(&TSpec{Kind: "record", Fields: []TField{
 			{Name: "a", Type: named("t", Prim(idUint8))}, {Name: "b", Type: Prim(idType)}, {Name: "c", Type: named("t", Prim(idUint8))}}},
 			&VSpec{Elems: []*VSpec{pv(zed.EncodeUint(1)), {T: named("t", Prim(idInt8))}, pv(zed.EncodeUint(2))}})},
+		{"[1(int32),\"a\"](=x) then [1,\"a\"](x)", p + "known-name-union-elements-undecorated", rtCase{Mode: "format", Vals: []tv{
+			{named("x", arr(union(Prim(idInt32), Prim(idString)))), &VSpec{Elems: []*VSpec{{Tag: 0, Elems: []*VSpec{i1}}, {Tag: 1, Elems: []*VSpec{pv([]byte("a"))}}}}},
+			{named("x", arr(union(Prim(idInt32), Prim(idString)))), &VSpec{Elems: []*VSpec{{Tag: 0, Elems: []*VSpec{i1}}, {Tag: 1, Elems: []*VSpec{pv([]byte("a"))}}}}}}}},
 		{"[1] of type x=[(int64,string)]", p + "named-partial-union-container", one(named("x", arr(union(Prim(idInt64), Prim(idString)))),
 			&VSpec{Elems: []*VSpec{{Tag: 0, Elems: []*VSpec{i1}}}})},
 		{"[1(x=int32)] of type [(int64,x=int32)]", p + "typedef-in-value-used-by-decorator", one(arr(union(Prim(idInt64), named("x", Prim(idInt32)))),
